@@ -588,6 +588,13 @@ def _loader_bundle():
     return _c07.guesser_loads_faithfully('C04.L')
 
 
+def _omen_cache_hit(ctx, rule):
+    # a Markov pre-terminal expands to ALL strings of its level: a cache miss must never be answered as "no completion"
+    # (seed C04-i: dict.get() in Optimizer.lookup returned (True, None) for an n-gram cached for another level)
+    from . import c10
+    return c10.r12_hit_implies_stored(ctx, rule)
+
+
 def _omen_lengths(ctx, rule):
     # a Markov pre-terminal expands to ALL strings of its level: the length loader keeps every length >= the n-gram size
     # (seed C04-h: `<=` instead of `<` in the converted guard dropped the shortest length)
@@ -600,7 +607,7 @@ def rules(tier):
             ('C04.R4', r4_count_write_pairing), ('C04.R5', r5_grouping_kernel), ('C04.R7', r7_group_cardinality),
             ('C04.R8', _exact_float),
             ('C04.R9', _mask_insertion), ('C04.R10', _omen_last), ('C04.R11', _omen_cursor), ('C04.R12', r12_output_point_total),
-            ('C04.R13', _omen_domain), ('C04.R14', _omen_prune), ('C04.R15', _omen_lengths)] + _loader_bundle() + []
+            ('C04.R13', _omen_domain), ('C04.R14', _omen_prune), ('C04.R15', _omen_lengths), ('C04.R16', _omen_cache_hit)] + _loader_bundle() + []
 
 
 META = {
